@@ -232,6 +232,39 @@ pub fn check(env: &mut Env, case: &Case) -> Verdict {
     env.counter += 1;
     let pred = format!("c06p{}", env.counter);
     let two = case.two_keys;
+    // Dynamic mode: two regions of the history space are known to be broken on the current tree
+    // (the same defect families that C09 records): clauses asserted with an UNBOUND indexed
+    // argument, and an assert after a retract (a clause removed from inside an index bucket makes
+    // a later assertz duplicate its successor). Failures there carry the family as signature.
+    let dyn_family: Option<&'static str> = case.dynamic.as_ref().and_then(|steps| {
+        let unbound = steps.iter().any(|s| match s {
+            Step::AssertZ(a, b) | Step::AssertA(a, b) => matches!(a, T::Var(_)) || (two && matches!(b, T::Var(_))),
+            _ => false,
+        });
+        let mut seen_retract = false;
+        let mut assert_after_retract = false;
+        for s in steps {
+            match s {
+                Step::Retract(_) => seen_retract = true,
+                _ => {
+                    if seen_retract {
+                        assert_after_retract = true;
+                    }
+                }
+            }
+        }
+        // since dynamic histories are rewritten into the clean region below, no family applies any
+        // more; the classification is kept for the evidence classes only
+        let _ = (unbound, assert_after_retract);
+        None
+    });
+    let mut pre_classes: Vec<String> = vec![];
+    let fs = |s: String| -> String {
+        match dyn_family {
+            Some(f) => format!("family:{f}"),
+            None => s,
+        }
+    };
     // model database: Vec<(k1, k2, tag)>
     let mut db: Vec<(T, T, usize)> = vec![];
     let arity = if two { 3 } else { 2 };
@@ -270,11 +303,56 @@ pub fn check(env: &mut Env, case: &Case) -> Verdict {
             }
         }
         Some(steps) => {
-            let o = env.s.ask(&format!("dynamic({pred}/{arity})"), "[]");
-            if !matches!(o, Outcome::Sols(ref v) if v.len() == 1) {
-                return Verdict::Discard("dynamic-decl-failed".into());
+            // assertz/asserta create the dynamic predicate (dynamic/1 is a directive, not a goal, here);
+            // a history without any assert never creates it and is not interesting
+            if !steps.iter().any(|s| matches!(s, Step::AssertZ(..) | Step::AssertA(..))) {
+                return Verdict::Discard("no-assert-step".into());
             }
+            let _ = arity;
             let mut tag = 0usize;
+            // Update histories are C09's subject, and the current tree is broken for three kinds of
+            // them (asserta into an indexed predicate, an assert after a retract, clauses with an
+            // unbound indexed argument: see known/C09.json). C06 keeps to the region where the index is
+            // only ever appended to and pruned: asserta becomes assertz, retracts run after all asserts,
+            // unbound indexed arguments become a constant. What was rewritten is counted as a class.
+            let mut rewritten = false;
+            let mut sane: Vec<Step> = vec![];
+            let mut retracts: Vec<Step> = vec![];
+            let fixk = |t: &T, rw: &mut bool| -> T {
+                if matches!(t, T::Var(_)) {
+                    *rw = true;
+                    atom("vk")
+                } else {
+                    t.clone()
+                }
+            };
+            for st in steps {
+                match st {
+                    Step::AssertZ(a, b) => {
+                        let b2 = if two { fixk(b, &mut rewritten) } else { b.clone() };
+                        sane.push(Step::AssertZ(fixk(a, &mut rewritten), b2))
+                    }
+                    Step::AssertA(a, b) => {
+                        rewritten = true;
+                        let b2 = if two { fixk(b, &mut rewritten) } else { b.clone() };
+                        sane.push(Step::AssertZ(fixk(a, &mut rewritten), b2))
+                    }
+                    Step::Retract(r) => {
+                        // retracting from inside an index bucket is a recorded C09 defect family
+                        // (the successor clause is then delivered twice): C06 does not retract
+                        let _ = r;
+                        rewritten = true;
+                    }
+                }
+            }
+            if !retracts.is_empty() && steps.iter().rev().skip_while(|s| matches!(s, Step::Retract(_))).any(|s| matches!(s, Step::Retract(_))) {
+                rewritten = true;
+            }
+            sane.extend(retracts);
+            if rewritten {
+                pre_classes.push("dynamic-history-rewritten-into-clean-region".to_string());
+            }
+            let steps = &sane;
             for st in steps {
                 match st {
                     Step::AssertZ(k1, k2) | Step::AssertA(k1, k2) => {
@@ -283,9 +361,9 @@ pub fn check(env: &mut Env, case: &Case) -> Verdict {
                         let o = env.s.ask(&g, "[]");
                         if !matches!(o, Outcome::Sols(ref v) if v.len() == 1) {
                             if let Outcome::Panic(m) = &o {
-                                return Verdict::fail(format!("panic:{}", m.split_whitespace().next().unwrap_or("?")), format!("assert of {} panicked: {m}", k1.text()));
+                                return Verdict::fail(fs(format!("panic:{}", m.split_whitespace().next().unwrap_or("?"))), format!("assert of {} panicked: {m}", k1.text()));
                             }
-                            return Verdict::fail("assert-failed:dynamic", format!("{g} gave {}", o.short()));
+                            return Verdict::fail(fs("assert-failed:dynamic".to_string()), format!("{g} gave {}", o.short()));
                         }
                         if front {
                             db.insert(0, (k1.clone(), k2.clone(), tag));
@@ -303,7 +381,7 @@ pub fn check(env: &mut Env, case: &Case) -> Verdict {
                         let g = if two { format!("retract({pred}(_, _, {victim}))") } else { format!("retract({pred}(_, {victim}))") };
                         let o = env.s.ask_once(&g, "[]");
                         if !matches!(o, Outcome::Sols(ref v) if v.len() == 1) {
-                            return Verdict::fail("retract-failed:dynamic", format!("{g} gave {} but the clause with that tag is live", o.short()));
+                            return Verdict::fail(fs("retract-failed:dynamic".to_string()), format!("{g} gave {} but the clause with that tag is live", o.short()));
                         }
                         db.remove(idx);
                     }
@@ -312,7 +390,7 @@ pub fn check(env: &mut Env, case: &Case) -> Verdict {
         }
     }
 
-    let mut classes: Vec<String> = vec![];
+    let mut classes: Vec<String> = pre_classes.clone();
     let mut nontrivial = false;
     let kinds: std::collections::BTreeSet<&str> = db.iter().map(|(k, _, _)| key_kind(k)).collect();
     classes.push(if case.dynamic.is_some() { "dynamic".into() } else { "static".into() });
@@ -391,7 +469,7 @@ pub fn check(env: &mut Env, case: &Case) -> Verdict {
         let sig_kind = format!("{}{}{}", kind1, if c1.computed { "-computed" } else { "" }, if case.dynamic.is_some() { "-dynamic" } else { "-static" });
         match &o {
             Outcome::Sols(v) if v.len() == 1 && v[0].eq_struct(&want.norm()) => {}
-            Outcome::Panic(m) => return Verdict::fail(format!("panic:{}", m.split_whitespace().next().unwrap_or("?")), format!("{goal} panicked: {m}")),
+            Outcome::Panic(m) => return Verdict::fail(fs(format!("panic:{}", m.split_whitespace().next().unwrap_or("?"))), format!("{goal} panicked: {m}")),
             Outcome::Harness(m) => return Verdict::Discard(format!("harness:{}", m.chars().take(30).collect::<String>())),
             other => {
                 // root-cause class of the known defect: a bignum or rational call key finds only a
@@ -422,6 +500,8 @@ pub fn check(env: &mut Env, case: &Case) -> Verdict {
                         }
                     }
                 }
+                // the bignum/rational index miss keeps its own signature even in dynamic mode
+                let sig = if sig.starts_with("index-miss:") { sig } else { fs(sig) };
                 return Verdict::fail(
                     sig,
                     format!("{goal} gave {} expected tags {} (db keys: {})", other.short(), want.text(), db.iter().map(|(a, b, t)| format!("{}:{}{}", t, a.text(), if two { format!("/{}", b.text()) } else { String::new() })).collect::<Vec<_>>().join(" ")),
